@@ -45,6 +45,21 @@ def is_zip_name(name, exts=None):
     return name.lower().endswith(tuple(exts) if exts else ZIP_EXTS)
 
 
+def all_sound(world, exts=None):
+    """Every entry with an archive name is a sound zip archive (then nothing is skipped and the status must be 0).
+    A skipped archive may legitimately be reported and counted (status 1): the statement only forbids aborting and losing rows."""
+    nm_ = {n["path"]: n for n in world["nodes"]}
+    for n in world["nodes"]:
+        if not is_zip_name(n["path"].rsplit("/", 1)[-1], exts):
+            continue
+        t = n
+        if n["type"] == "symlink":
+            t = nm_.get(os.path.normpath(os.path.join(os.path.dirname(n["path"]), n["target"])))
+        if t is None or t["type"] != "file" or "zip" not in t or "trunc" in t or t.get("flip"):
+            return False
+    return True
+
+
 class Check:
     id = PROP
     level = "fault_enumeration"
@@ -219,9 +234,10 @@ class Check:
             r1 = sb.run([q1], plan=plan, tz=case["tz"], config=config)
             if len(ctx.samples) < 2:
                 ctx.samples.append({"argv": [q1], "without_archives": q0, "config.toml": config, "outcome": r1.summary()})
+            sound = all_sound(world, case.get("zip_exts"))
             for r, q in ((r0, q0), (r1, q1)):
                 bad = self.abnormal(r)
-                if bad or r.status != 0:
+                if bad or (r.status != 0 and (r is r0 or sound)):
                     viols.append(Violation(PROP, "C19.run", ["C19.run", "abnormal_end:" + (bad or "status_%s" % r.status), var],
                                            {"query": q, "tz": case["tz"], "clock_ns": plan["clock"], "outcome": r.summary()}))
                     return viols
@@ -234,7 +250,7 @@ class Check:
                 # relational: the first N keys of fselect's own unlimited ordered run with archives
                 qu = q1.split(" limit")[0] + " into list"
                 ru = sb.run([qu], plan=plan, tz=case["tz"], config=config)
-                if self.abnormal(ru) or ru.status != 0:
+                if self.abnormal(ru) or (ru.status != 0 and sound):
                     viols.append(Violation(PROP, "C19.run", ["C19.run", "abnormal_end", var], {"query": qu, "outcome": ru.summary()}))
                     return viols
                 full = ru.rows(len(cols))
@@ -320,7 +336,7 @@ class Check:
             gen.validate_model(world, sb.root)
             r0 = sb.run([q0], plan=plan)
             rg = sb.run([q1], plan=plan)
-            if self.abnormal(r0) or self.abnormal(rg) or r0.status != 0 or rg.status != 0:
+            if self.abnormal(r0) or self.abnormal(rg) or r0.status != 0 or (rg.status != 0 and all_sound(world)):
                 viols.append(Violation(PROP, "C19.run", ["C19.run", "abnormal_end", sub], {"query": q1, "outcome": rg.summary()}))
                 return viols
             rows0 = [r[0] for r in r0.rows(1)]
@@ -398,7 +414,7 @@ class Check:
             gen.validate_model(world, sb.root)
             r0 = sb.run([q0], plan=plan)
             rg = sb.run([q1], plan=plan)
-            if self.abnormal(r0) or self.abnormal(rg) or r0.status != 0 or rg.status != 0:
+            if self.abnormal(r0) or self.abnormal(rg) or r0.status != 0 or (rg.status != 0 and all_sound(world)):
                 viols.append(Violation(PROP, "C19.run", ["C19.run", "abnormal_end", io], {"query": q1, "outcome": rg.summary()}))
                 return viols
             p = copy.deepcopy(plan)
@@ -426,7 +442,7 @@ class Check:
             tprefix = ("[%s] " % target).encode("utf-8")
             if io == "short":
                 # short reads must be masked completely
-                if rows != grows or r.status != 0:
+                if rows != grows or r.status != rg.status:
                     viols.append(Violation(PROP, "C19.fault", ["C19.fault", "short_reads_change_result", io],
                                            {"query": q1, "archive": target, "chunks": case["chunks"], "rows": len(rows), "want": len(grows), "status": r.status}))
                 return viols
